@@ -645,11 +645,49 @@ def run(ctx):
                     lo, hi = float(st["bounds"][0]), float(st["bounds"][1])
                     if st["how"] == "rebind":
                         params[i]["bounds"] = [lo, hi]
+                    elif st["how"] == "dict":                                # the dict inside the shared list is replaced
+                        params[i] = dict(params[i], bounds=[lo, hi])
+                    elif st["how"] == "gen_parameters":                      # a NEW list of NEW dicts of the same length, given to
+                        params = [dict(q, bounds=list(q["bounds"])) for q in params]   # every generator object in use
+                        params[i]["bounds"] = [lo, hi]
+                        for g_, _cfg in pool.values():
+                            g_.parameters = params
+                        if problem is not None:
+                            problem.parameters = params
                     else:
                         params[i]["bounds"][0] = lo
                         params[i]["bounds"][1] = hi
                     ref_bounds[i] = (lo, hi)
                     hstat["user edits of a bound between runs"] += 1
+                    hstat["user edits of a bound between runs: %s" % st["how"]] += 1
+                    continue
+                if op == "edit_values":
+                    # the user edits the SAME level-table object in place (the one he handed to init() before) and calls
+                    # init() with it again before the next run (values_version changes, so the next run re-initialises)
+                    if not user_values:
+                        continue
+                    i = st["index"] % len(user_values)
+                    new = [float(x) for x in st["levels"]]
+                    kind = st["kind"]
+                    if kind == "append":
+                        user_values[i].append(new[0])
+                    elif kind == "replace_slice":
+                        user_values[i][:] = new
+                    elif kind == "replace_inner":
+                        user_values[i] = list(new)
+                    elif kind == "drop" and len(user_values[i]) > 2:
+                        del user_values[i][-1]
+                    elif kind == "set_item":
+                        user_values[i][st.get("position", 0) % max(len(user_values[i]), 1)] = new[0]
+                    elif kind == "swap_tables" and len(user_values) >= 2:
+                        j = (i + 1) % len(user_values)
+                        user_values[i], user_values[j] = user_values[j], user_values[i]
+                    else:
+                        user_values[i].insert(0, new[0])
+                    ref_values = [tuple(float(x) for x in v) for v in user_values]
+                    values_version += 1
+                    hstat["user edits the level table object in place and re-initialises with it"] += 1
+                    hstat["in-place edit of the level table: %s" % kind] += 1
                     continue
                 if op == "set_values":                                       # the user supplies new level lists
                     ref_values = [tuple(float(x) for x in v) for v in st["values"]]
@@ -830,6 +868,36 @@ def run(ctx):
                 if a["op"] == "full":
                     steps.append(dict(a, center=not a["center"], reuse=True))
                 run_session("rerun", bnds, vals, steps)
+    # red-team round 3 (rule 9): ONE long-lived generator object; between two runs the configuration changes in every way a
+    # caller can change it - for the generators reading bounds: item assignment, list rebinding, dict replacement, a new
+    # same-length parameter list on the generator object (with and without init() before the next run); for the generators
+    # taking level tables: the SAME table object edited in place (a level appended / dropped / overwritten, the levels of a
+    # factor replaced by slice or by a new inner list, two tables swapped) and handed to init() again
+    def edit_step():
+        kind = rng.choice(EDIT_KINDS)
+        return dict(op="edit_values", kind=kind, index=rng.randrange(8), position=rng.randrange(4),
+                    levels=[float(x) for x in rng.sample(GRID, rng.choice([2, 3, 4]))])
+
+    EDIT_KINDS = ["append", "replace_slice", "replace_inner", "drop", "set_item", "swap_tables", "insert"]
+    for a in K6:
+        if a["op"] in ("full_levels", "gsd_gen"):
+            for kind in EDIT_KINDS:
+                for rnd in (False, True):
+                    k = rng.choice([2, 3, 3]) if rnd else 3
+                    e1 = dict(edit_step(), kind=kind)
+                    steps = [dict(a), e1, dict(a, reuse=True), edit_step(), dict(a, reuse=True), dict(a, reuse=True)]
+                    run_session("edit_in_place", gen_bounds(rng, k, degenerate=0.0) if rnd else TS_BOUNDS,
+                                gen_values_h(k) if rnd else TS_VALUES, steps)
+        else:
+            for how in ("item", "rebind", "dict", "gen_parameters"):
+                for reinit in (False, True):
+                    k = 3 if a["op"] != "pb" else rng.choice([3, 5, 7])
+                    lo, lo2 = float(rng.choice(GRID)), float(rng.choice(GRID))
+                    steps = [dict(a), dict(op="set_bounds", index=rng.randrange(k), how=how, bounds=[lo, lo + rng.choice([0.5, 2.0, 7.5])]),
+                             dict(a, reuse=True, reinit=reinit),
+                             dict(op="set_bounds", index=rng.randrange(k), how=how, bounds=[lo2, lo2 + rng.choice([1.0, 2.4])]),
+                             dict(a, reuse=True, reinit=not reinit)]
+                    run_session("edit_in_place", gen_bounds(rng, k, degenerate=0.0), gen_values_h(k), steps, use_problem=(how == "dict" and reinit))
     # the three problems of the red-team demonstration: Box-Behnken first, then the others, on one Problem
     for bnds in ([(-2.5, 5.0), (1.0, 3.4), (6.0, 10.0)], [(0.0, 1.0), (10.0, 20.0), (-4.0, 4.0), (2.0, 3.0), (100.0, 300.0)], [(0.0, 8.0)] * 7):
         run_session("corpus", bnds, gen_values_h(len(bnds)),
@@ -844,10 +912,12 @@ def run(ctx):
         for t in range(rng.randint(2, 5)):
             if t > 0 and rng.random() < 0.2:
                 a = float(rng.choice(GRID))
-                steps.append(dict(op="set_bounds", index=rng.randrange(k), how=rng.choice(["rebind", "item"]),
+                steps.append(dict(op="set_bounds", index=rng.randrange(k), how=rng.choice(["rebind", "item", "dict", "gen_parameters"]),
                                   bounds=[a, a + rng.choice([0.5, 1.0, 2.0, 2.4, 7.5])]))
             if t > 0 and rng.random() < 0.1:
                 steps.append(dict(op="set_values", values=gen_values_h(k if rng.random() < 0.8 else max(k - 1, 1))))
+            if t > 0 and rng.random() < 0.2:
+                steps.append(edit_step())
             st = gen_step()
             if t > 0 and rng.random() < 0.3:                                 # the generator class used just before, again
                 st["op"] = [x for x in steps if x["op"] in GEN_CLASS][-1]["op"]
@@ -879,6 +949,20 @@ def run(ctx):
         hstat["doe-level sessions"] += 1
         for idx, op in enumerate(steps):
             history.append(op)
+            if op == "edit":
+                # the caller changes a lower level of his own lists in place (same dict, same list objects) between two calls
+                i = rng.randrange(n)
+                a, b = ref[i]
+                a2 = a - rng.choice([0.5, 1.0, 2.0])
+                if shape == 3:
+                    lists[i][0], lists[i][1] = a2, (a2 + b) / 2
+                else:
+                    lists[i][0] = a2
+                ref[i] = (a2, b)
+                ref_lists = [tuple(v) for v in lists]
+                history[-1] = "edit: level list %d now %r" % (i, list(ref_lists[i]))
+                hstat["doe-level: caller edits his level lists in place between two calls"] += 1
+                continue
             f = {"doe_full": doe.build_full_fact, "doe_pb": doe.build_plackett_burman, "doe_bb": doe.build_box_behnken}[op]
             before = snap(d)
             out, e = call(lambda: f(d))
@@ -926,11 +1010,11 @@ def run(ctx):
         shape = rng.choice([2, 3])
         k = rng.choice([3, 3, 4, 4, 5, 2, 6]) if shape == 2 else rng.choice([3, 3, 4, 4, 5])
         if shape == 2:
-            steps = [rng.choice(["doe_full", "doe_pb"]) for _ in range(rng.randint(2, 4))]
+            steps = [rng.choice(["doe_full", "doe_pb", "doe_full", "doe_pb", "edit"]) for _ in range(rng.randint(2, 5))]
             steps += ["doe_bb"] * rng.choice([0, 0, 1, 2])               # only at the end: it rewrites two-element lists in place
             bounds = gen_bounds(rng, k, degenerate=0.08)
         else:
-            steps = [rng.choice(["doe_full", "doe_bb"]) for _ in range(rng.randint(2, 5))]
+            steps = [rng.choice(["doe_full", "doe_bb", "doe_full", "doe_bb", "edit"]) for _ in range(rng.randint(2, 6))]
             bounds = gen_bounds(rng, k, degenerate=0.0)
             if rng.random() < 0.2:
                 i = rng.randrange(k)
@@ -944,6 +1028,11 @@ def run(ctx):
         hstat["doe-level sessions"] += 1
         hsteps = []
         for t in range(rng.randint(2, 5)):
+            if t > 0 and rng.random() < 0.3:                              # the caller changes a level count of his list in place
+                L[rng.randrange(k)] = rng.choice([2, 3, 4, 5])
+                refL = tuple(L)
+                hsteps.append("levels edited in place: %r" % (list(refL),))
+                hstat["doe-level: caller edits his level lists in place between two calls"] += 1
             before = snap(L)
             if rng.random() < 0.4:
                 hsteps.append("fullfact")
@@ -987,9 +1076,13 @@ def run(ctx):
                 "lists over a value grid with reversed / coincident bounds and repeated level values, reductions 0..8 and 0..r+3 complementary "
                 "designs; plus HISTORIES on one shared parameter list / one Problem (every ordered pair of the six generator configurations, "
                 "random sequences of 2..5 runs with generator objects reused or new, user edits of bounds / level lists and overwriting of "
-                "returned vectors in between) and on one dict / list handed repeatedly to the doe.py functions: every run of a history is "
-                "compared with the model on the user's ORIGINAL bounds / levels, and the shared structures must be bit-identical before and "
-                "after every run; a case is non-trivial when the implementation returned a design (rejected sizes are compared too but not "
+                "returned vectors in between; one long-lived generator object per class whose configuration changes between two runs in "
+                "every way a caller can change it: bounds by item assignment / list rebinding / dict replacement / a new same-length "
+                "gen.parameters, with and without init() before the next run; level tables by editing the SAME table object in place - "
+                "level appended, inserted, dropped, overwritten, levels replaced by slice or by a new inner list, tables swapped - and "
+                "init() with it again) and on one dict / list handed repeatedly to the doe.py functions (edited in place between calls): "
+                "every run of a history is compared with the model on the bounds / levels the user's structures hold at the time of the "
+                "call (the harness's own immutable record), and the shared structures must be bit-identical before and after every run; a case is non-trivial when the implementation returned a design (rejected sizes are compared too but not "
                 "counted); distinct = distinct (generator, parameters) resp. (history so far, parameters)") % ctx.pick(8, 12)
     ordered_pairs = sorted("%s -> %s" % ab for ab in adjacent)
     ctx.extra.update({"case_kinds": dict(kinds), "exceptions_compared": dict(errors), "sizes": dict(sorted(sizes.items())),
